@@ -85,13 +85,13 @@ CLAIMS = {
              "at end of stream / completed close, with that call's local spans handed over before a root's commit; no-op spans do nothing.",
         note="One call per harness on hand-written Stream/Sink probes. " + _COLL + _TB),
     "C15": dict(
-        text="For a corpus of annotated functions (early return; `?` with &mut log and name=; generic method with lifetime and short_name; properties; async; "
+        text="For a corpus of annotated functions (early return; `?` with &mut log and name=; generic method with lifetime and short_name; properties; "
              "async+enter_on_poll) and hand-written twins: equal return value / Poll sequence / side-effect log for all argument values, nothing "
              "recorded without a local parent; span name (default path, name=, short_name; ::{{closure}} for async + enter_on_poll) and one span per "
              "call / per poll for the sync and enter_on_poll shapes, observed through recording stubs of the two entry points.",
         note="The proc-macro itself is not executed by the engine: only its expansions on the corpus, as compiled. Functions outside the corpus are not covered. "
              "NOT decided: properties and parent of the span recorded under a local parent (a traced call on the thread's span stack ran out of memory at 30 GB); "
-             "name and span count of the plain async (in_span) shape (symbolic execution does not finish). " + _TB),
+             "the plain `async fn` shape (in_span inside the async state machine: out of memory / symbolic execution does not finish). " + _TB),
     "C16": dict(
         text="Built without `enable`: every public entry point returns the no-op value, no property closure runs, no context exists, no command ring is "
              "created. With `enable`: roots before a reporter, children of no-ops, unsampled scopes and operations without a scope hand nothing over "
